@@ -311,7 +311,7 @@ class Model:
 
         roots = self.d['root'] if isinstance(self.d['root'], list) else [self.d['root']]
         self.root = roots[0]
-        visit(self.root, None)
+        visit(self.root, self.d.get('_top_namespace'))   # the root Config itself may be given a namespace
         self.G, self.N = flatten_context(self.d.get('context'), gv)
 
     def effective_values(self, ns, cid):
